@@ -210,6 +210,10 @@ def rule_d(ctx):
     ctx.rule("C10.d", "the channel behind the info-carrying exfiltrators hands each cell index to one owner at a time: take/give CAS loops recompute "
                       "the returned index and the new queue word from the snapshot the successful CAS compared against (shared with C08.e)", floor=3)
     coherence(_Alias(ctx, "C10.d"))
+    from .C07 import rule_a as typestate
+    ctx.rule("C10.e", "a record is read out of its cell before the cell's index is handed back (slot-index typestate of the per-signal channel, "
+                      "shared with C07.a): otherwise a concurrent delivery overwrites the record being reported", floor=7)
+    typestate(_Alias(ctx, "C10.e"))
 
 
 def run(ctx):
